@@ -168,8 +168,19 @@ def run(ops, K=2, needs_hist=(2,), chains=2, seed=0, J=1, init_cfgs=(), included
         for c in range(chains):
             evs[c].append({"ev": "append", "c": cf, "accepted": True})
     crashed = None
+    retained = []      # results objects obtained (and read) while the run was still going on
     for op in ops:
-        if op[0] == "append":
+        if op[0] == "read":
+            r_mid = eng.get_results()
+            try:
+                r_mid.get_posterior_samples()
+            except Exception:  # noqa: BLE001  (no posterior samples yet)
+                pass
+            r_mid.get_samples()
+            retained.append(r_mid)
+            for c in range(chains):
+                evs[c].append({"ev": "read"})
+        elif op[0] == "append":
             try:
                 eng.append_epoch(cfg_of(op[1]))
                 ok = True
@@ -211,6 +222,19 @@ def run(ops, K=2, needs_hist=(2,), chains=2, seed=0, J=1, init_cfgs=(), included
     else:
         res = eng.get_results()
         results_ev = results_event(res, eng, keys, K, chains, included, excluded, store_kernel_states, nq)
+
+        # a results object obtained earlier holds the engine's live chains: its accessors show what was sampled since
+        def same(a, b):
+            return sorted(a) == sorted(b) and all(np.array_equal(np.asarray(a[k]), np.asarray(b[k])) for k in a)
+
+        def post(r):
+            try:
+                return dict(r.get_posterior_samples())
+            except Exception:  # noqa: BLE001
+                return {}
+        ok = all(same(post(r), post(res)) and same(dict(r.get_samples()), dict(res.get_samples())) for r in retained)
+        for c in range(chains):
+            results_ev[c]["retained_ok"] = bool(ok)
     traces = []
     allkeys = [e["key"] for c in range(chains) for e in evs[c] if "key" in e]
     if not crashed:
